@@ -2,8 +2,10 @@ package main
 
 import (
 	"fmt"
+	compact_time "github.com/kstenerud/go-compact-time"
 	"math/big"
 	"math/rand"
+	"strings"
 )
 
 func init() { register("C10", runC10, replayEvents("C10", c10Oracle)) }
@@ -158,6 +160,17 @@ func runC10(c *Ctx) {
 			c.c10Judge(es, rej)
 		}
 	}
+	// times: rules accept the zero value and what compact_time's Validate accepts, nothing else
+	for i, tv := range c10Times() {
+		for _, es := range [][]Ev{{{K: "bd"}, {K: "v", N: 0}, {K: "tm", T: tv}, {K: "ed"}},
+			{{K: "bd"}, {K: "v", N: 0}, {K: "m"}, {K: "tm", T: tv}, {K: "null"}, {K: "e"}, {K: "ed"}},
+			{{K: "bd"}, {K: "v", N: 0}, {K: "l"}, {K: "mk", Data: []byte("a")}, {K: "tm", T: tv}, {K: "e"}, {K: "ed"}}} {
+			rej, _ := c.addRulesCase(rc, es)
+			c.Count(fmt.Sprintf("time-%d|%s", i, evsString(es)), true)
+			c.Dist(fmt.Sprintf("times/accepted=%v", rej < 0))
+			c.c10Judge(es, rej)
+		}
+	}
 	optR := DefaultGenOpts()
 	optR.Records = true
 	gr := NewEvGen(c.Rng, optR)
@@ -243,5 +256,40 @@ func recordArityMutants(es []Ev, r *rand.Rand) [][]Ev {
 			out = append(out, append(append([]Ev{}, es[:j-1]...), es[j:]...))
 		}
 	}
+	return out
+}
+
+// c10Times: valid times of every kind and times with exactly one field out of range (built in the
+// struct directly, as a Go caller of the event API can).
+func c10Times() []compact_time.Time {
+	ok := []compact_time.Time{
+		compact_time.NewDate(2020, 2, 29), compact_time.NewTime(23, 59, 60, 999999999, compact_time.TZAtUTC()),
+		compact_time.NewTimestamp(-1, 12, 31, 0, 0, 0, 0, compact_time.TZAtAreaLocation("Europe/Berlin")),
+		compact_time.NewTime(1, 2, 3, 4, compact_time.TZAtLatLong(-9000, 18000)), compact_time.NewTime(1, 2, 3, 0, compact_time.TZWithMiutesOffsetFromUTC(-1439)),
+		compact_time.ZeroDate(), compact_time.ZeroTime(), compact_time.ZeroTimestamp(),
+	}
+	out := append([]compact_time.Time{}, ok...)
+	mut := func(f func(t *compact_time.Time)) {
+		t := compact_time.NewTimestamp(2001, 6, 15, 12, 30, 30, 5, compact_time.TZAtUTC())
+		f(&t)
+		out = append(out, t)
+	}
+	mut(func(t *compact_time.Time) { t.Year = 0 })
+	mut(func(t *compact_time.Time) { t.Month = 0 })
+	mut(func(t *compact_time.Time) { t.Month = 13 })
+	mut(func(t *compact_time.Time) { t.Day = 0 })
+	mut(func(t *compact_time.Time) { t.Month, t.Day = 2, 30 })
+	mut(func(t *compact_time.Time) { t.Hour = 24 })
+	mut(func(t *compact_time.Time) { t.Minute = 60 })
+	mut(func(t *compact_time.Time) { t.Second = 61 })
+	mut(func(t *compact_time.Time) { t.Nanosecond = 1000000000 })
+	mut(func(t *compact_time.Time) { t.Timezone = compact_time.TZAtLatLong(9001, 0) })
+	mut(func(t *compact_time.Time) { t.Timezone = compact_time.TZAtLatLong(0, -18001) })
+	mut(func(t *compact_time.Time) { t.Timezone = compact_time.TZWithMiutesOffsetFromUTC(1440) })
+	mut(func(t *compact_time.Time) { t.Timezone = compact_time.TZAtAreaLocation(strings.Repeat("A", 128)) })
+	d := compact_time.NewDate(2001, 13, 1)
+	out = append(out, d)
+	tm := compact_time.NewTime(25, 0, 0, 0, compact_time.TZAtUTC())
+	out = append(out, tm)
 	return out
 }
